@@ -38,9 +38,12 @@ def judge(ctx, sc, rr, what):
         if e.get("fidelity"):
             ctx.violation(dict(kind="payload", what=e["fidelity"].split(":")[0].split("(")[0].strip()[:60]),
                           dict(scenario=sc, run=rid, fidelity=e["fidelity"], payload=rs.get("echo")))
-        elif not rs.get("echo") and not closing and not out.get("stuck") and e["returns"] == 1:
+        elif not rs.get("echo") and not closing and not out.get("stuck") and e["returns"] == 1 and not (rs.get("as") and e["st"] == "dup") \
+                and not (e["st"] == "dup" and any(x.get("as") == rid for x in sc.get("runs", []))):
             want_ok = rs.get("beh", "ok") == "ok"
-            if want_ok and not (e["st"] == "ok" and e["token_ok"]):
+            # (a caller that shares another's run ID gets the output of the step started under that run ID)
+            tok = e["token_ok"] or (rs.get("as") and e.get("got") == "hello " + rs["as"])
+            if want_ok and not (e["st"] == "ok" and tok):
                 ctx.violation(dict(kind="lost_or_wrong_result", step="ok", code=e["st"]),
                               dict(scenario=sc, run=rid, results=out["results"], last_events=out["events"][-14:]))
             if not want_ok and e["st"] == "ok":
@@ -252,6 +255,29 @@ def run(ctx):
         if out is not None:
             ctx.count(sc["id"])
     ctx.extra["run_id_reuse_sessions"] = len(reuse)
+    # one run ID used by two OVERLAPPING callers: the step waits until the second caller has returned, so exactly one
+    # of the two is refused - and the refusal must leave the other call's registration alone: the accepted caller
+    # still gets the result of its step (with and without signal channels, unbuffered and buffered wires, the refused
+    # caller first or second)
+    dup = []
+    for i, (sig, order) in enumerate([(s_, o_) for s_ in (False, True) for o_ in (("r1", "r1d"), ("r1d", "r1"))]):
+        for cap in (0, 2):
+            runs = [dict(id="r1", beh="ok", sig=sig, badsig=False),
+                    dict(id="r1d", **{"as": "r1"}, dup=True, beh="ok", sig=sig, badsig=False),
+                    dict(id="r2", beh="ok", sig=False, badsig=False), dict(id="r3", beh="ok", sig=False, badsig=False)]
+            dup.append(dict(id="dup/%d/cap%d" % (i, cap), mode="free", cap=cap, frag=bool(cap), seed=ctx.seed * 17 + i, runs=runs,
+                            workload=dict(phases=[list(order) + ["r2"], ["r3"]], close="end")))
+    for sc, rr in zip(dup, A.run_driver(ctx, dup, label="c05dup")):
+        out = judge(ctx, sc, rr, "overlapping callers of one run ID")
+        if out is not None:
+            ctx.count(sc["id"])
+            st = sorted([out["results"].get("r1", {}).get("st"), out["results"].get("r1d", {}).get("st")])
+            if not out.get("stuck") and st == ["dup", "ok"]:
+                won = next(x for x in ("r1", "r1d") if out["results"][x]["st"] == "ok")
+                if out["results"][won].get("got") != "hello r1":
+                    ctx.violation(dict(kind="lost_or_wrong_result", step="ok", code="foreign", part="duplicate"),
+                                  dict(scenario=sc, run=won, results=out["results"]))
+    ctx.extra["overlapping_duplicate_sessions"] = len(dup)
     # the legacy v1 framing (no run IDs: strictly serial): the real client against a minimal v1 server built around
     # the real CallableSchema; payload fidelity as above; a rejected input ends the stream and must come back as an error
     v1 = []
